@@ -31,6 +31,9 @@ func genRaceCase(r *simrt.Rand, c *Case, tier string) *Case {
 		g.MaxTxn = 700
 		g.MaxSpan = 700
 		g.PAccrual = 0
+		if r.P(0.5) {
+			g.MinTxn, g.BusyDay = 400, true
+		}
 	}
 	c.Gen = &g
 	c.Sub = "race"
